@@ -167,11 +167,18 @@ def run_world(item, with_mirrors):
                 reps = do_req('fatal')
                 ms = int((time.time() - t0) * 1000)
                 out['ops'].append({'i': i, 'op': 'recycle:%s' % st['a'], 'ms': ms, 'reply': [norm_reply(r) for r in reps]})
-                if c.dead or any(r.end == 'EOF' for r in reps):
+                # whether the client's connection survives the server's death, and whether the next statement still meets the
+                # dead connection, depends on timing, with or without mirrors: a new client continues, and such connections
+                # are used up before the steps that are compared
+                c.close()
+                c = Client(w.port, name='A%d' % i, timeout=6.0)
+                where[0] = None
+                dead[0] = False
+                if c.startup.end != 'Z':
+                    out['notes'].append('step %d: no new client after the recycle' % i)
                     break
-                # whether the next statement still meets the dead connection depends on timing, with or without mirrors:
-                # use such connections up before the steps that are compared
-                for _ in range(item.get('pool_size', 1) + 1):
+                steer(st['a'])
+                for _ in range(item.get('pool_size', 1) + 2):
                     r0 = one('SELECT 0')
                     if r0.end != 'Z':
                         break
@@ -280,9 +287,13 @@ def run_scenario(item):
         res['with'] = a
         res['without'] = b
         slow = [x for x, y in zip(a['ops'], b['ops']) if x['ms'] - y['ms'] > 300]
-        if not slow:
+        # after a server connection died under the pooler, what the following statements meet depends on timing in both worlds:
+        # a difference in such a history has to show twice
+        unsure = any(st['op'] == 'recycle' for st in item['steps']) and \
+            [x['reply'] for x in a['ops']] != [y['reply'] for y in b['ops']]
+        if not slow and not unsure:
             break
-        res['notes'].append('attempt %d: %d steps slower with mirrors' % (attempt, len(slow)))
+        res['notes'].append('attempt %d: %d steps slower with mirrors%s' % (attempt, len(slow), ', replies differ after a recycle' if unsure else ''))
         item['_intern'] = {}
     recs = [{'ev': 'reset', 'sc': item['id'], 'target': TOPOS[item['topo']]['target']}]
     for s in ('s1', 's2'):
